@@ -25,7 +25,7 @@ package fetcher
 //@
 //@ // ===== C10: a document is only handed on after the access-control system allowed reading it ==========
 //@ func (*permissionedFetcher).NextDoc -> (r, err)
-//@   ensures err == nil && optStrHas(r) ==> acpAllows(f.ctx, f.identity, f.documentACP, f.col, box(0), optStrVal(r)) && acpErr(f.ctx, f.identity, f.documentACP, f.col, box(0), optStrVal(r)) == nil
+//@   ensures err == nil && optStrHas(r) ==> acpAllows(f.ctx, f.identity, f.documentACP, f.col, box(acpTypes.DocumentReadPerm), optStrVal(r)) && acpErr(f.ctx, f.identity, f.documentACP, f.col, box(acpTypes.DocumentReadPerm), optStrVal(r)) == nil
 //@   tags C10
 //@ func newPermissionedFetcher -> (r)
 //@   ensures r != nil && r.identity == identity && r.documentACP == documentACP && r.col == col && r.fetcher == fetcher && r.ctx == ctx
